@@ -17,7 +17,7 @@
 /* ghost xv_ap_base/xv_ap_q and the layout constants: harness/attrpath/_ghost.h (included by the unit headers) */
 
 /* strlen: for a pointer into the string under parse the answer is AP_END - offset.  This is NOT trusted: both facts it
- * rests on (NUL at AP_END, no NUL at the arbitrary position xv_ap_q in between) are asserted at every call, which
+ * rests on (NUL at AP_END, no NUL at the arbitrary position xv_ap_a in between) are asserted at every call, which
  * proves them for every position.  Why: a read at a symbolic offset of a 300-byte object costs ~60k clauses and the
  * library loop does 300 of them per call.  Every other argument takes the ordinary loop (strlen.0, `pre-unwind:`). */
 size_t strlen(const char *s)
@@ -26,7 +26,7 @@ size_t strlen(const char *s)
         size_t off = (size_t)__CPROVER_POINTER_OFFSET(s);
         __CPROVER_assert(off <= AP_END, "XV strlen shortcut: pointer inside the string object");
         __CPROVER_assert(xv_ap_base[AP_END] == 0, "XV strlen shortcut: NUL at the end of the object");
-        __CPROVER_assert(!(xv_ap_q >= off && xv_ap_q < AP_END) || xv_ap_base[xv_ap_q] != 0, "XV strlen shortcut: no NUL before the end (arbitrary position)");
+        __CPROVER_assert(!(xv_ap_a >= off && xv_ap_a < AP_END) || xv_ap_base[xv_ap_a] != 0, "XV strlen shortcut: no NUL before the end (arbitrary position)");
         return AP_END - off;
     }
     size_t n = 0;
@@ -71,8 +71,7 @@ void *ut_memdup(const void *ptr, size_t size)
  * offset instead of 256); plain CBMC jobs close it with `pre-unwind:`.  The invariant's in-bounds part holds for
  * strings whose NUL is the last byte of their object (the layout of this unit); for any other argument it FAILS as an
  * obligation, it is not assumed. */
-long xv_ap_strtol_val;      /* ghost: value returned by the last strtol */
-size_t xv_ap_strtol_used;   /* ghost: number of characters it consumed (end - nptr) */
+/* ghost xv_ap_strtol_val / xv_ap_strtol_used (value returned, characters consumed by the last call): _ghost.h */
 long strtol(const char *nptr, char **endptr, int base)
 {
     __CPROVER_assert(base == 10, "XV strtol model covers base 10 only");
